@@ -383,10 +383,11 @@ def eval_observed(ctx, model):
     return out
 
 
-def run_once(harness, prefix, mode, model, timeout_ms, tier, cache=None):
+def run_once(harness, prefix, mode, model, timeout_ms, tier, cache=None, confirming=False):
     """one execution of the harness along one decision prefix"""
     ctx = core.Ctx(prefix, timeout_ms=timeout_ms, mode=mode, model=model)
     ctx.cache = cache
+    ctx.confirming = confirming   # REAL-mode replay of a solver-predicted violation (harnesses may search harder)
     core.CUR = ctx
     sx = Sx(ctx, tier)
     status = 'ok'
@@ -569,7 +570,7 @@ def explore(harness, *, tier='quick', timeout_ms=20000, max_paths=20000, budget_
 
 def confirm_violation(harness, label, model, timeout_ms, tier):
     """replay the solver's model on the real code (floats, real numpy, scripted generator)"""
-    rctx, rstatus, rerr = run_once(harness, [], 'real', model, timeout_ms, tier)
+    rctx, rstatus, rerr = run_once(harness, [], 'real', model, timeout_ms, tier, confirming=True)
     labels = [l for l, _ in rctx.violations]
     info = dict(status=rstatus, labels=labels, missing=rctx.missing[:5])
     if rerr:
